@@ -1334,9 +1334,104 @@ def basis_clause(ctx):
                         {"kind": "copy", "type": type(o).__name__})
 
 
+def seq_setting(g, n_extra=1):
+    """an over-determined 1-qubit state tomography (x, y, z and further two-outcome directions: the minimiser then depends
+    on the weights) with three different datasets of different sizes"""
+    c = qobj.csys("qubit")
+    dirs = [np.array([1.0, 0, 0]), np.array([0, 1.0, 0]), np.array([0, 0, 1.0])]
+    for _ in range(n_extra):
+        v = g.standard_normal(3)
+        dirs.append(v / np.linalg.norm(v))
+    povms = [Povm(c, [np.hstack([1.0, n]) / np.sqrt(2), np.hstack([1.0, -n]) / np.sqrt(2)]) for n in dirs]
+    para = bool(g.integers(0, 2))
+    qt = StandardQst(povms, on_para_eq_constraint=para, schedules="all")
+    true = qobj.rand_state(g, c)
+    probs = qt.calc_prob_dists(true)
+    datasets = []
+    for n in (int(g.integers(30, 60)), int(g.integers(150, 300)), int(g.integers(80, 140))):
+        data = []
+        for pr in probs:
+            k = int(np.clip(g.binomial(n, min(max(pr[0], 0.0), 1.0)), 2, n - 2))   # strictly inside: no clipping branch
+            data.append((n, np.array([k / n, 1 - k / n])))
+        datasets.append(data)
+    return {"dirs": [d.tolist() for d in dirs], "para": para,
+            "data": [[(n, p.tolist()) for n, p in d] for d in datasets]}
+
+
+def seq_run(setting, lcls, mode, weights=None):
+    """entries of calc_estimate_sequence([D1, D2, D3]) vs the estimate of each dataset alone with fresh estimator / loss /
+    algorithm objects; returns [(k, sequence entry, fresh estimate)] for the entries that differ"""
+    c = qobj.csys("qubit")
+    povms = [Povm(c, [np.hstack([1.0, n]) / np.sqrt(2), np.hstack([1.0, -np.array(n)]) / np.sqrt(2)])
+             for n in map(np.array, setting["dirs"])]
+    qt = StandardQst(povms, on_para_eq_constraint=setting["para"], schedules="all")
+    datasets = [[(int(n), np.array(p, dtype=np.float64)) for n, p in d] for d in setting["data"]]
+    cls, ocls, _ = LOSSES[lcls]
+    aspec = {"eq": True, "ineq": True, "order": "eq_ineq", "maxit": 50, "maxopt": 300}
+
+    def est(dsets):
+        w = None if weights is None else [np.array(x, dtype=np.float64) for x in weights]
+        with contextlib.redirect_stdout(io.StringIO()):
+            r = LossMinimizationEstimator().calc_estimate_sequence(
+                qt, dsets, cls(), ocls(mode, weights=w), ProjectedGradientDescentBacktracking(), build_aopt(aspec))
+        return [np.array(v) for v in r.estimated_var_sequence]
+    def attempt(dsets):
+        try:
+            return est(dsets)
+        except Exception as e:  # noqa
+            return e
+    seq = attempt(datasets)
+    bad = []
+    for k, d in enumerate(datasets):
+        fresh = attempt([d])
+        a = seq if isinstance(seq, Exception) else seq[k]
+        b = fresh if isinstance(fresh, Exception) else fresh[0]
+        if isinstance(a, Exception) or isinstance(b, Exception):
+            if type(a) is not type(b):      # one side raises, the other estimates
+                bad.append((k, repr(a)[:80] if isinstance(a, Exception) else a.tolist(),
+                            repr(b)[:80] if isinstance(b, Exception) else b.tolist()))
+        elif a.shape != b.shape or not np.allclose(a, b, rtol=0, atol=1e-10):
+            bad.append((k, a.tolist(), b.tolist()))
+    return bad
+
+
+def sequence_clause(ctx, volume=1):
+    """every entry of an estimate *sequence* equals the estimate of that dataset alone with fresh objects — for the
+    data-dependent weighting modes this needs an over-determined experiment"""
+    g = ctx.npgen(f"sequence{volume}")
+    nset = (2 if ctx.quick else 10) * volume
+    for t in range(nset):
+        setting = seq_setting(g, n_extra=1 + t % 2)
+        ns = len(setting["dirs"])
+        for lcls in ("WSE", "FWSE"):
+            for mode in ("identity", "inverse_sample_covariance", "inverse_unbiased_covariance", "custom"):
+                weights = None
+                if mode == "custom":
+                    weights = []
+                    for _ in range(ns):
+                        a = g.standard_normal((2, 2))
+                        weights.append((a @ a.T + 0.5 * np.eye(2)).tolist())
+                rep = {"kind": "sequence", "setting": setting, "loss": lcls, "mode": mode, "weights": weights}
+                try:
+                    bad = seq_run(setting, lcls, mode, weights)
+                except Exception as e:  # noqa
+                    ctx.violate(f"C13/sequence/{LOSSES[lcls][0].__name__}/{mode}/raises", f"{type(e).__name__}: {e}", rep)
+                    continue
+                ctx.case(("sequence", t, lcls, mode), sample={"clause": "sequence-vs-fresh", "loss": lcls, "mode": mode,
+                                                              "testers": ns, "para": setting["para"]})
+                ctx.count(f"sequence clause {lcls} {mode}")
+                if bad:
+                    k, a, b = bad[0]
+                    ctx.violate(f"C13/sequence/{LOSSES[lcls][0].__name__}/{mode}/entry-differs-from-fresh",
+                                f"calc_estimate_sequence over 3 datasets, {ns} two-outcome testers, mode {mode}: entries "
+                                f"{[x[0] for x in bad]} differ from the estimates of the same datasets with fresh objects "
+                                f"(entry {k}: {a} vs {b})", rep)
+
+
 def oracle(ctx, volume=1):
     seen = set()
     basis_clause(ctx)
+    sequence_clause(ctx, volume)
     nhist, nops = ((300, 12) if ctx.quick else (3000, 30))
     workers = 1 if ctx.quick else max(1, min(12, (os.cpu_count() or 2) - 2))
     fuzz(ctx, nhist * volume, nops, f"fuzz{volume}", seen, workers=int(os.environ.get("C13_WORKERS", workers)))
@@ -1644,6 +1739,11 @@ def replay(ctx, data):
         for pr in probs:
             print("  PROBLEM:", describe(pr, W))
         return 1 if probs else 0
+    if r["kind"] == "sequence":
+        bad = seq_run(r["setting"], r["loss"], r["mode"], r.get("weights"))
+        for k, a, b in bad:
+            print(f"  PROBLEM: entry {k} of the sequence {a}  vs fresh objects on that dataset alone {b}")
+        return 1 if bad else 0
     before = len(ctx.violations)
     basis_clause(ctx)
     for v in ctx.violations[before:]:
